@@ -1,9 +1,12 @@
 """C04 — data type codec is the exact CiA 301 representation and never silently wraps."""
+import logging
 import math
 from fractions import Fraction
 
 from canopen import objectdictionary as od
 from canopen.objectdictionary import datatypes as dt
+
+logging.getLogger("canopen").setLevel(logging.CRITICAL + 1)      # limit warnings are not part of the result
 
 ID = "C04"
 PROOF_MODULES = ["CanopenProofs.C04"]
@@ -148,7 +151,11 @@ def run_impl(op):
     kind, t = a[0], a[1]
     var = mkvar(t)
     try:
-        if kind == "enc":
+        if kind == "encl":
+            # the entry declares limits (LowLimit / HighLimit): they are advisory, the codec is the same
+            var.min, var.max = int(a[3]), int(a[4])
+            r = var.encode_raw(int(a[2]))
+        elif kind == "enc":
             r = var.encode_raw(int(a[2]))
         elif kind == "encb":
             r = var.encode_raw(a[2] == "1")
@@ -199,6 +206,9 @@ def oracle(op, out):
     if t == "none":
         return None
     t = int(t)
+    if kind == "encl" and t in SPEC:
+        w = oracle(" ".join(["enc", a[1], a[2]]), out)
+        return ("with limits declared: " + w) if w else None
     if kind == "enc" and t in SPEC:
         w, signed = SPEC[t]
         v = int(a[2])
@@ -401,6 +411,14 @@ def gen_ops(tier, rng):
             yield f"dec {OCT} {hx(b)}"
             yield f"dec {DOM} {hx(b)}"
             yield f"dec none {hx(b)}"
+    # entries that declare limits: values below, between and above them encode as without limits, and values the
+    # type cannot hold are rejected all the same
+    for t in sorted(SPEC):
+        w, signed = SPEC[t]
+        lo, hi = (-(1 << (w - 1)), (1 << (w - 1)) - 1) if signed else (0, (1 << w) - 1)
+        for (mn, mx) in ((lo, hi), (0, 100), (lo // 2, hi // 2), (5, 5)):
+            for v in sorted({lo, hi, lo - 1, hi + 1, mn, mx, mn - 1, mx + 1, 0, rng.randint(lo, hi), 40000}):
+                yield f"encl {t} {v} {mn} {mx}"
     # byte-order marks are ordinary characters of a UNICODE_STRING (utf_16_le), also in first position
     for c in (0xFEFF, 0xFFFE):
         for cps in ([c], [c, 65], [c, c, 66], [65, c], [c, 0x3042, 0x3044]):
